@@ -80,6 +80,16 @@ def random_sessions(rng, count):
     return out
 
 
+def many_rankings_sessions(rng, count):
+    out = []
+    for _ in range(count):
+        D = ac.many_rankings_dataset(rng)
+        n = max(grids.universe(D))
+        out.append({"D": D, "naming": rng.choice(["ints", "letters"]), "ne": n + 1, "log_construct": 1,
+                    "ops": [{"op": "remove_empty"}, {"op": "remove_rate", "p": 1, "q": 2}]})
+    return out
+
+
 def ranking_cases(tier, rng):
     out = []
     for n in (3, 4):
@@ -126,6 +136,9 @@ def stages(tier, rng, only=None):
            Stage("random", "Trace_Dataset", datarun.run_session,
                  lambda: random_sessions(rng, 250 if tier == "quick" else 3000), _nt_step, datarun.init,
                  post=datarun.flatten, chunk=4000),
+           Stage("very_many_rankings", "Trace_Dataset", datarun.run_session,
+                 lambda: many_rankings_sessions(rng, 6 if tier == "quick" else 40), _nt_step, datarun.init,
+                 post=datarun.flatten, chunk=50),
            Stage("rankings", "Trace_Dataset", datarun.run_ranking, lambda: ranking_cases(tier, rng),
                  lambda r: len(r["obs"]["rk"]) >= 2, datarun.init)]
     if tier == "thorough":
